@@ -146,8 +146,12 @@ func runC14(rep *TReport, raw json.RawMessage) {
 	case "hybrid_code_idt_token":
 		o = authz("code_idt_token")
 		code, at = w.tok("code", o.New["code"]), w.tok("at", o.New["at"])
-	case "refresh":
-		o = authz("code")
+	case "refresh", "refresh_hybrid":
+		if r.Flow == "refresh_hybrid" {
+			o = authz("code_idt_token")
+		} else {
+			o = authz("code")
+		}
 		if o.Res == "ok" {
 			o = w.Exec(1, Op{Op: "redeem", Client: "A", Auth: "ok", Code: 1, Redir: "same", Ver: "none"})
 		}
@@ -202,7 +206,7 @@ func runC14(rep *TReport, raw json.RawMessage) {
 	switch r.Flow {
 	case "device": // the device authorization request has no nonce parameter
 		rep.cmp(raw, "nonce_absent", nil, claims["nonce"], false)
-	case "refresh": // OIDC Core 12.2: absent, or the original value
+	case "refresh", "refresh_hybrid": // OIDC Core 12.2: absent, or the original value
 		if claims["nonce"] != nil {
 			rep.cmp(raw, "nonce", GoodNonce, claims["nonce"], false)
 		}
@@ -211,7 +215,7 @@ func runC14(rep *TReport, raw json.RawMessage) {
 	}
 	exp, _ := claims["exp"].(float64)
 	expT := time.Unix(int64(exp), 0)
-	if r.Preset == "future" && r.Flow != "refresh" { // a refresh mints a new ID token with a new lifetime
+	if r.Preset == "future" && r.Flow != "refresh" && r.Flow != "refresh_hybrid" { // a refresh mints a new ID token with a new lifetime
 		rep.cmp(raw, "exp_is_preset", now.Add(1*Tick).Unix(), int64(exp), false)
 	} else {
 		rep.cmp(raw, "exp_in_future_within_lifetime", true, expT.After(time.Now()) && !expT.After(time.Now().Add(time.Duration(cfg.LIDT)*Tick)), false)
